@@ -43,6 +43,7 @@ def gen_swarm(rng: random.Random):
     on["eof"] = rng.random() < 0.15
     on["discard"] = rng.random() < 0.2
     on["kwnames"] = rng.random() < 0.2
+    on["manyfields"] = rng.random() < 0.12
     return on
 
 
@@ -189,6 +190,9 @@ class DefGen:
             kind = "union" if (sw["union"] and rng.random() < 0.25) else "struct"
         name = name or self.uid("S" if kind == "struct" else "U")
         nfields = rng.randint(1, self.max_fields if kind == "struct" else 4)
+        if sw.get("manyfields") and depth == 0 and kind == "struct" and rng.random() < 0.3:
+            # boundary field counts: generated methods are built per field count (templates, argument lists, comparisons)
+            nfields = rng.choice([0, 9, 10, 11, 16, 20, 31, 32, 33, 40]) if not root else rng.choice([9, 10, 11, 16, 20, 31, 32, 33, 40])
         fields = []
         int_fields = []  # names of earlier plain integer fields (expression operands)
         dynamic_seen = False
@@ -342,7 +346,7 @@ class DefGen:
                 all_int = False
             fields.append(f)
             dynamic_seen = dynamic_seen or fdyn
-        if not fields:
+        if not fields and nfields:
             fields.append({"name": nf(), "type": "uint8", "inline": None, "ptr": 0, "dims": [], "bits": None})
         sd = {"kind": kind, "name": name, "fields": fields}
         self.structs.append(sd)
